@@ -63,9 +63,11 @@ def observe_derive(case):
 
     inputs, op, strs, pairs = case[:4]
     mode = case[5] if len(case) > 5 else 0
-    convs = build_inputs(inputs, mode)
-    if mode:
+    convs = build_inputs(inputs, mode % 10)
+    if mode % 10:
         inputs = [[qprops.v_record(r) for r in c.records] for c in convs]      # merging sorts the synonym lists
+    if mode >= 10:
+        previous_use(convs, op)
     ft = fold_table([s for recs in inputs for s in case_strings(recs)])
     case = [inputs, op, strs, pairs, ft, mode]
     try:
@@ -80,6 +82,24 @@ def observe_derive(case):
         except Exception:
             twice = [-1]
     return case, [0, qprops.battery(R, strs, pairs), twice]
+
+
+def previous_use(convs, op):
+    """Modes >= 10: the very same input OBJECTS have served in earlier derivations (the same one, chains in both orders, a chain with
+    a converter that brings new synonyms for every record); the results are thrown away.  What a derivation returns is a function of
+    what its inputs hold, not of what they were used for before."""
+    import curies
+
+    def bringer(c, j):
+        return curies.Converter([curies.Record(prefix=r.prefix, uri_prefix=r.uri_prefix, prefix_synonyms=[f"zp{j}p{i}"],
+                                               uri_prefix_synonyms=[f"zp{j}://{i}/"]) for i, r in enumerate(c.records)])
+    attempts = [lambda: run_op(convs, op), lambda: curies.chain(convs), lambda: curies.chain(convs[::-1])]
+    attempts += [lambda c=c, j=j: curies.chain([c, bringer(c, j)]) for j, c in enumerate(convs)]
+    for a in attempts:
+        try:
+            a()
+        except Exception:
+            pass
 
 
 def build_inputs(inputs, mode):
@@ -181,7 +201,7 @@ class C09(DerivePlugin):
                 strs, pairs = self.probes(rng, inputs)
             # chain folds over the records in the order the converters hold them, and with case folding that order matters; the model's
             # inputs are in constructor (sorted) order, so only get_subconverter takes inputs built in other ways
-            yield [inputs, op, strs, pairs, [], rng.choice([0, 0, 0, 1, 2, 3]) if op[0] == 1 else 0]
+            yield [inputs, op, strs, pairs, [], (rng.choice([0, 0, 0, 1, 2, 3]) if op[0] == 1 else 0) + rng.choice([0, 0, 10])]
 
     explanation = ("small-scope block: chain of every ordered pair of converters holding at most one record over the universe {a, A, b} x "
                    "{h/, h/a, k#} (one optional synonym on each side) in both case modes, and get_subconverter of every converter of at most two "
@@ -308,7 +328,7 @@ class C11(DerivePlugin):
             recs = qprops.gen_records(rng, rng.choice([1, 2, 2, 3, 3, 4, 5]))     # the pool includes the empty prefix
             m = gen_curie_remapping(rng, recs)
             strs, pairs = self.probes(rng, [recs], [b for _, b in m] + [a for a, _ in m])
-            yield [[recs], [2, m], strs, pairs, [], rng.choice([0, 0, 0, 1, 2, 3])]
+            yield [[recs], [2, m], strs, pairs, [], rng.choice([0, 0, 0, 1, 2, 3]) + rng.choice([0, 0, 10])]
 
     explanation = ("small-scope block: every converter of at most two records over the CURIE prefixes {a, A, b} (one optional synonym each) with "
                    "every remapping dictionary of at most two entries over {a, A, b, x} (every key order), and the three-record converter a, A, b "
@@ -391,7 +411,7 @@ class C12(DerivePlugin):
             m = gen_uri_mapping(rng, recs, by_curie)
             strs, pairs = self.probes(rng, [recs])
             strs += [b + "1" for _, b in m][:3]
-            yield [[recs], [4 if by_curie else 3, m], list(dict.fromkeys(strs)), pairs, [], rng.choice([0, 0, 0, 1, 2, 3])]
+            yield [[recs], [4 if by_curie else 3, m], list(dict.fromkeys(strs)), pairs, [], rng.choice([0, 0, 0, 1, 2, 3]) + rng.choice([0, 0, 10])]
 
     explanation = ("small-scope block: every converter of at most two records over the URI prefixes {h/, h/a, k#} (one optional URI-prefix "
                    "synonym each, CURIE prefixes a and b, b with the synonym A) with every mapping of at most two entries, old URI prefix -> new "
